@@ -364,6 +364,19 @@ def c09_configs(big):
     return cfgs
 
 
+def c09_random_configs():
+    """Programs that are only run under seeded random gated schedules in the quick tier (in the thorough tier p2
+    and p3 are also model-checked and replayed along the specification's paths): a DELETE that names rows of a
+    row-set inserted while a compaction is in flight together with rows of the row-sets being compacted."""
+    A = {"A": [{1, 2}, {3}], "B": [{4, 5}, {6}]}
+    return [Config("p2", ("A", "B"), {"s1": [stmt("ins", "A", {7}), stmt("del", "A", {2, 7})],
+                                      "s2": [stmt("del", "B", {5}), stmt("sel", "A")]}, A, pk=True),
+            Config("p4", ("A", "B"), {"s1": [stmt("ins", "A", {7}), stmt("del", "A", {1, 3, 7})],
+                                      "s2": [stmt("ins", "A", {8}), stmt("sel", "A")]}, A),
+            Config("p3", ("A", "B"), {"s1": [stmt("del", "A", {1, 3})], "s2": [stmt("ins", "A", {8}), stmt("del", "B", {6})]},
+                   {"A": [{1, 2}, {3}], "B": [{4}, {5}, {6}]}, passes=2)]
+
+
 def check_c09(args):
     t0 = time.time()
     pid = "C09"
@@ -379,6 +392,8 @@ def check_c09(args):
         take = scheds if big and len(scheds) <= 6000 else sample(scheds, 6000 if big else 300, seed)
         all_cases += replay(v, pid, cfgobj, take, seed, stats)
         replay_random(v, pid, cfgobj, 600 if big else 60, seed, stats)
+    for cfgobj in c09_random_configs():
+        replay_random(v, pid, cfgobj, 300 if big else 60, seed + 7, stats)
     rc = v.finish()
     write_evidence(pid, tier, seed, "model_checking", {
         "states": sum(r["distinct"] for r in mc_runs), "transitions": sum(r["generated"] for r in mc_runs),
